@@ -6,7 +6,7 @@ import subprocess
 import sys
 
 HERE = os.path.dirname(os.path.dirname(os.path.abspath(__file__)))
-EXTRA = {"C13-async-bitpos-zero-no-merge": ["C02"], "C18-maxitems-ge8": ["C02", "C03"], "C02-maxitems-ge8": ["C18", "C03"], "C20-retry-keeps-segments": ["C01"], "C15-name-decoded-utf8": ["C04"], "C16-read-outside-lock": [], "C09-cancel-before-disconnect-event": ["C08"], "C08-cancel-before-disconnect-event": ["C09"], "C10-locator-early-out": ["C15"], "C01-segments-hoisted": ["C05"], "C17-facade-mode-cache": [], "R5-C03-async-statp-keeps-changes": ["C05"], "R5-C05-packet-regex-no-dotall": ["C04", "C09"], "R5-C08-cancel-key-prefix": ["C09"], "R5-C06-wait-for-cancels-shared-future": ["C17"], "R6-C03-async-install-per-segment": ["C01"], "R6-C08-return-in-finally": ["C10"], "R6-C11-config-devices-aliased": ["C12"], "R6-C12-remove-while-iterating": ["C11"], "R6-C20-handled-wallclock": ["C01"], "R8-C18-async-refuses-RD-writability": ["C02"], "R8-C11-strict-decoder-unknown-in-property-only": ["C03"], "R8-C18-build-accessors-accumulates": ["C19"]}
+EXTRA = {"C13-async-bitpos-zero-no-merge": ["C02"], "C18-maxitems-ge8": ["C02", "C03"], "C02-maxitems-ge8": ["C18", "C03"], "C20-retry-keeps-segments": ["C01"], "C15-name-decoded-utf8": ["C04"], "C16-read-outside-lock": [], "C09-cancel-before-disconnect-event": ["C08"], "C08-cancel-before-disconnect-event": ["C09"], "C10-locator-early-out": ["C15"], "C01-segments-hoisted": ["C05"], "C17-facade-mode-cache": [], "R5-C03-async-statp-keeps-changes": ["C05"], "R5-C05-packet-regex-no-dotall": ["C04", "C09"], "R5-C08-cancel-key-prefix": ["C09"], "R5-C06-wait-for-cancels-shared-future": ["C17"], "R6-C03-async-install-per-segment": ["C01"], "R6-C08-return-in-finally": ["C10"], "R6-C11-config-devices-aliased": ["C12"], "R6-C12-remove-while-iterating": ["C11"], "R6-C20-handled-wallclock": ["C01"], "R8-C18-async-refuses-RD-writability": ["C02"], "R8-C11-strict-decoder-unknown-in-property-only": ["C03"], "R8-C18-build-accessors-accumulates": ["C19"], "R10-C06-struct-get-state-across-retries": ["C01"]}
 SEEDS = [int(x) for x in os.environ.get("CHECK_SEEDS", "0").split(",")]
 rows = []
 for sid in sorted(os.listdir(os.path.join(HERE, "seeded"))):
